@@ -28,6 +28,8 @@ def shards(tier, seed):
     out += [{"name": f"corrupt-{i}", "kind": "corrupt", "i": i, "n": m, "tier": tier, "seed": seed} for i in range(m)]
     out += [{"name": f"stream-{c}", "kind": "stream", "client": c, "tier": tier, "seed": seed} for c in ("ebyte", "yd", "usb")]
     out += [{"name": "threads", "kind": "threads", "tier": tier, "seed": seed}]
+    # what the clients put on the wire around a failing write, as a receiver on the bus sees it (old link + new link)
+    out += [{"name": f"sendfail-{c}", "kind": "sendfail", "client": c, "tier": tier, "seed": seed} for c in ("ebyte", "yd", "waveshare")]
     return out
 
 
@@ -372,7 +374,29 @@ def run_threads(spec, acc):
                       {"definition": did, "fmt": fmt, "thread": t, "what": what, "detail": repr(detail)})
 
 
+def run_sendfail(spec, acc):
+    """The packets of a message cut by a failing write, then the packets of the next message on the connection the client opens
+    next: decoded by ONE receiver they yield the second message and nothing that nobody sent (the scenario and the reference
+    receiver are C19's; only that verdict is taken over here)."""
+    from . import c19
+
+    class _Only:
+        def __init__(self, a):
+            self._a = a
+
+        def __getattr__(self, n):
+            return getattr(self._a, n)
+
+        def violation(self, key, what, w=None):
+            if key.startswith("receiver-"):
+                self._a.violation("own-packets-rejected:across-a-failed-send", what, w)
+    c19.run_write_failure({"kind": spec["client"], "tier": spec["tier"], "seed": spec["seed"], "name": spec["name"], "what": "write_failure"}, _Only(acc))
+    acc.count("format_roundtrips_compared", 0)
+
+
 def run_shard(spec, acc):
+    if spec["kind"] == "sendfail":
+        return run_sendfail(spec, acc)
     {"defs": run_defs, "corrupt": run_corrupt, "stream": run_stream, "threads": run_threads}[spec["kind"]](spec, acc)
 
 
